@@ -190,6 +190,20 @@ func runRegistry(r *core.Run, cid string, K int) {
 	}
 	// every registry case closes with one hand-over of each kind on one chain (update from the TSS account, upgrade proposal)
 	n := s.W.Nodes[rng.Intn(len(s.W.Nodes))]
+	// ... after the TSS account was re-registered away from the TSS chain: being the configured account alone confers nothing
+	if cur := w.tssOf[n.Name]; cur != nil {
+		chains, addrs := []string{"ghost-chain"}, []string{cur.Bech32()}
+		rp := clienttypes.NewRegisterRelayerProposal("t", "d", cur.Bech32(), chains, addrs)
+		cctx, write := n.Ctx().CacheContext()
+		if rp.ValidateBasic() == nil && xibcclient.NewClientProposalHandler(n.App.XIBCKeeper.ClientKeeper)(cctx, rp) == nil {
+			write()
+			w.model[n.Name][cur.Bech32()] = regEntry{chains, addrs}
+			s.W.Roll(n)
+			w.noRekey = true
+			w.attemptTSS(n, cur, "update")
+			w.attemptTSS(n, cur, "recv")
+		}
+	}
 	w.rekeyTSSBy(n, "update")
 	w.rekeyTSSBy(n, "upgrade")
 }
@@ -483,6 +497,13 @@ func (w *worldA) attemptTSS(n *core.Node, signer *core.Account, kind string) {
 	exp := 0
 	if !isTSS {
 		exp = -1
+	}
+	if isTSS && (kind == "update" || kind == "recv") {
+		// the TSS account check comes on top of the relayer registry, not instead of it
+		if _, reg := w.authorised(n, signer, tssChain); !reg {
+			exp = -1
+			w.r.Count("attempts/tss-account-not-registered-as-relayer-of-the-tss-chain/"+kind, 1)
+		}
 	}
 	switch kind {
 	case "update":
